@@ -24,6 +24,11 @@ CHECKS.update({
    text="All import graphs over <=2 files (quick) / <=3 files (thorough) x 2 fragments with an edge label in {none,*,A,B,A+B} per ordered pair incl. self are resolved by the real code through an in-memory OperationResolver and compared (multiset keyed by originating file and name, verdict, error position) with a reference closure; random graphs up to 8 files add differently spelled paths, dangling files, missing and repeated names, and import-line permutations.",
    note="termination is observed as 'returned' under the shard watchdog (a hang or stack overflow makes the run inconclusive and is then re-run in trace mode)", ref="DESIGN.md §5 C13"),
 })
+CHECKS.update({
+ "C19": dict(cat="exploration", tech="runtime monitoring + sanitizers: sequential reference model and clean-room differential over ABI call histories; shadow-heap allocator; AddressSanitizer; valgrind memcheck; Miri (tree borrows)",
+   text="Every history of length <=4 (quick) / <=5 (thorough) over an 18-symbol alphabet (initiate valid/invalid/missing-fragment roots, required/load/emit/free on live, freed, never-issued and zero ids) plus random histories of 8-60 calls with up to 6 tasks and config reloads are driven through the real extern \"C\" functions exactly as loader-core does (alloc_string/copy/call/free_string). Each response is compared with a sequential model; each emit with a fresh loader instance given the same files. The same driver runs with a shadow heap that checks every dealloc against the recorded layout, under ASan, under valgrind and (short purposeful histories) under Miri.",
+   note="a clean sanitizer run is absence of reports on the histories driven, not memory safety; Miri uses tree borrows and ignores leaks (see evidence assumptions); panics inside the ABI abort the process and are diagnosed by re-running the dead shard in trace mode", ref="DESIGN.md §5 C19"),
+})
 NOT_YET = {}
 
 def main():
